@@ -85,6 +85,8 @@ func Main(id, tier string, seed uint64, verbose bool) int {
 	}
 	defer env.Close()
 	ctx.Env = env
+	// observer only: statement coverage of the repository's packages reached by this check's CLI workload
+	covErr := env.EnableCoverage()
 	out, err := f(ctx)
 	if err != nil {
 		env.Close()
@@ -97,6 +99,11 @@ func Main(id, tier string, seed uint64, verbose bool) int {
 	}
 	ev := &evid.Evidence{PropertyID: id, Tier: tier, Seed: int64(seed), Level: out.Level, Coverage: out.Coverage,
 		Assumptions: out.Assumptions, WallS: wall, Violations: len(out.Violations)}
+	if covErr == nil {
+		if rep := env.CoverageReport(); len(rep) > 0 {
+			out.Coverage["repo_statement_coverage_reached_by_cli_workload"] = rep
+		}
+	}
 	if len(out.KnownLines) > 0 {
 		out.Coverage["known_findings_observed"] = out.KnownLines
 	}
